@@ -807,22 +807,23 @@ def r084(P, u, rep):
             rep.undecided('R08.4', '%s:%s:alignas' % (PU, fname), 'declaration site not interpretable: %s' % ex, where=where)
             continue
         res = {}      # construct -> [ok, msg, facts]
+        seen_case = set()
         nobj = 0
+        broken = None
         for ctx, out in paths:
             if out[0] != 'ret':
                 continue
-            # what the path knows about the _Alignas value: True = present (non-zero), False = absent, None = never looked at
-            kAL = ('sym', 'AL')
-            bAL = ctx.bounds.get(kAL)
-            al = None
-            if bAL and bAL[0] == bAL[1] == 0:
-                al = False
-            elif 0 in ctx.neq.get(kAL, ()) or (bAL and (bAL[0] > 0 or bAL[1] < 0)):
-                al = True
             objs = []
             for e in ctx.events:
                 if e[0] == 'fstore' and e[2] == 'ty' and isinstance(e[1], Obj) and e[1].tname == tname and not e[1].lazy and e[1] not in objs:
                     objs.append(e[1])
+            if not objs:
+                continue
+            try:
+                guards = Summary(ctx, {})
+            except Uninterpretable as ex:
+                broken = str(ex)
+                continue
             for o in objs:
                 # the type the object had when its alignment was last written (a flexible array member's type is replaced later)
                 ty = None
@@ -854,25 +855,44 @@ def r084(P, u, rep):
                     if tyal is None and ty.lazy:
                         tyal = it.read_field(ty, 'align')
                 nice = flavour.replace('-', ' ')
-                if al is True:
-                    ok = isinstance(got, Sym) and got.name == 'AL'
-                    case = 'with-alignas'
-                    msg = 'a %s declared with _Alignas(N) gets %s instead of N: it is placed as if the specifier were absent' % (
-                        nice, 'the alignment of its type' if (tyal is not None and vkey(got) == vkey(tyal)) else 'alignment %r' % (got,))
-                elif al is False:
-                    ok = tyal is not None and vkey(got) == vkey(tyal)
-                    case = 'without-alignas'
-                    msg = 'a %s declared without _Alignas gets alignment %r instead of the alignment of its type' % (nice, got)
-                else:
-                    # the path that creates the object never looks at the specifier
-                    ok = False
-                    case = 'with-alignas'
-                    msg = 'a %s never receives an _Alignas value: %s() does not read the specifier\'s alignment on the path that creates it, so `_Alignas(64) char buf[..]` declared this way is aligned like a char' % (nice, fname)
-                k = '%s/%s' % (flavour, case)
-                cur = res.get(k)
-                if cur is None or (cur[0] and not ok):
-                    res[k] = [ok, msg, {'path': ctx.trail[-10:]}]
-        if not nobj:
+                try:
+                    fgot = Fn(got)
+                    ftyal = Fn(tyal) if tyal is not None else None
+                except Uninterpretable as ex:
+                    broken = str(ex)
+                    continue
+                if ftyal is None or len(ftyal.syms) != 1:
+                    broken = 'alignment of the declared type is not a single unknown (%r)' % (tyal,)
+                    continue
+                tsym = list(ftyal.syms)[0]
+                others = (guards.syms() | fgot.syms) - {'AL', tsym}
+                # the object's alignment as a function of (_Alignas value, type alignment), on the states this path covers
+                for AL, TAL in ((0, 1), (0, 8), (16, 1), (64, 8), (16, 4)):
+                    e = {s_: 0 for s_ in others}
+                    e['AL'] = AL; e[tsym] = TAL
+                    try:
+                        if not guards.applies(e):
+                            continue
+                        g = fgot(e)
+                    except (KeyError, ZeroDivisionError) as ex:
+                        broken = 'path condition not evaluable: %r' % (ex,)
+                        continue
+                    case = 'with-alignas' if AL else 'without-alignas'
+                    want = AL if AL else TAL
+                    ok = g == want
+                    seen_case.add((flavour, case))
+                    if AL:
+                        msg = 'a %s declared with _Alignas(%d) whose type has alignment %d gets alignment %d: the specifier does not reach the object, it is placed%s as if it were absent' % (
+                            nice, AL, TAL, g, ' and laid out inside its struct' if tname == 'Member' else '')
+                    else:
+                        msg = 'a %s declared without _Alignas whose type has alignment %d gets alignment %d' % (nice, TAL, g)
+                    k = '%s/%s' % (flavour, case)
+                    cur = res.get(k)
+                    if cur is None or (cur[0] and not ok):
+                        res[k] = [ok, msg, {'path': ctx.trail[-10:], 'alignment': fgot.text}]
+        if broken and not res:
+            rep.undecided('R08.4', '%s:%s:alignas' % (PU, fname), 'declaration site not interpretable: %s' % broken, where=where)
+        elif not nobj:
             rep.undecided('R08.4', '%s:%s:alignas' % (PU, fname), 'no path of %s creates a %s object' % (fname, tname), where=where)
         for k, (ok, msg, facts) in sorted(res.items()):
             rep.ob('R08.4', '%s:%s:alignas/%s' % (PU, fname, k), ok, msg, where=where, facts=facts)
